@@ -287,7 +287,12 @@ main(void)
 				hc_puthex(out, clen);
 				hcpu_ctr_state(s, &bytectr, pblk, sbuf);
 				printf(" | bytectr=%llu pblk=", (unsigned long long)bytectr);
-				hc_puthex(pblk, 16);
+				if (bytectr == 0) {
+					/* init2 leaves bytes 8..14 as they were (indeterminate): nonce and byte 15 only */
+					hc_puthex(pblk, 8);
+					printf(":%02x", pblk[15]);
+				} else
+					hc_puthex(pblk, 16);
 				/* buf is only meaningful in the middle of a block */
 				printf(" buf=");
 				hc_puthex(sbuf, (bytectr % 16) ? 16 : 0);
